@@ -301,9 +301,15 @@ Definition unguarded_calls : list (N * call) :=
    (16, mk "InterBroker" "InvokeReceipt" [WBytes] outsider false);
    (17, mk "ServiceRegistry" "Manage" [WString; WString; WString; WString; WBytes] outsider false)]%N.
 
-(** each unguarded internal entry point: with its flag on an outsider's call succeeds, with the flag off it is rejected *)
+(** the listed defects that are still present in the generated table: [Defect] rows whose method has no guard *)
+Definition open_defects : list N :=
+  flat_map (fun m => match defect_of m with Some n => [n] | None => [] end) surface.
+
+(** each unguarded internal entry point that is still open: with its flag on an outsider's call succeeds;
+    with the flag off - and for the entry points repaired in the sources meanwhile - it is rejected *)
 Lemma unguarded_refuted :
-  forallb (fun p : N * call => match fst (invoke std_body (only (fst p)) [] (snd p)) with Ok => true | Fail _ => false end) unguarded_calls = true.
+  forallb (fun p : N * call => negb (memN (fst p) open_defects) ||
+                               match fst (invoke std_body (only (fst p)) [] (snd p)) with Ok => true | Fail _ => false end) unguarded_calls = true.
 Proof. vm_compute. reflexivity. Qed.
 
 Lemma unguarded_fixed :
@@ -311,9 +317,11 @@ Lemma unguarded_fixed :
              match invoke std_body cfg_fixed [] (snd p) with (Fail e, []) => (e =? E_NO_PERMISSION)%N | _ => false end) unguarded_calls = true.
 Proof. vm_compute. reflexivity. Qed.
 
-(** the listed defects are exactly the [Defect] rows that are still unguarded in the generated table *)
-Definition open_defects : list N :=
-  flat_map (fun m => match defect_of m with Some n => [n] | None => [] end) surface.
+(** an entry point whose guard was added in the sources rejects the outsider whatever the flags say *)
+Lemma repaired_reject :
+  forallb (fun p : N * call => memN (fst p) open_defects ||
+                               match invoke std_body (only (fst p)) [] (snd p) with (Fail e, []) => (e =? E_NO_PERMISSION)%N | _ => false end) unguarded_calls = true.
+Proof. vm_compute. reflexivity. Qed.
 
 (** non-vacuity: guarded entry points exist, a legitimate caller passes, an outsider does not *)
 Example internal_example :
